@@ -388,6 +388,7 @@ func check(c *Ctx, r *Report) error {
 	r.Coverage["trees_outside_claimed_class"] = skipped
 	r.Coverage["primitive_regions"] = regions
 	r.Coverage["coq_cases"] = cases.Len()
+	polygonStratum(c, r, rng)
 	r.Rule = "primitives: parameter vectors in a dyadic-exact and a random regime (rounding 0 / 2^-20 / half / admissible maximum, radius 0, length 0, capsule, pointed cones, rational (Pythagorean) and irrational cone slopes) x points placed by construction in every branch region (27 box regions, the cone's above/below/inside/slope/rim regions, medial axes, rotation axis, exactly on faces/planes/vertices, far away); each Evaluate compared with an exact rational specification in Go (all points) and in Coq at QOps together with the FOps model (points whose rho is exactly representable). Lipschitz: random trees (depth <= 4) over the listed combinators, " + fmt.Sprint(npairs) + " probe pairs each (segments, near-coincident pairs, pairs straddling coordinate planes, box faces, the rotation axis and sector boundaries), violating pairs bisected. non-trivial = every primitive case; trees with >= 2 distinct constructors. distinct by primitive+point / tree description."
 	r.Trusted = append(r.Trusted,
 		"hand model coq/Sdf/Shape.v tied by differential execution at FOps (here on region-targeted points, in C01 on random trees); matrix code translated from the Go AST by harness/exprgen on every run",
